@@ -44,6 +44,7 @@ class PickDomain(ereduce.ReduceDomain):
         self.fid = fid
         self.choice_calls = 0
         self.rec = []
+        self.writes = []
 
     def node_of(self, edge):
         if isinstance(edge, Edge) and edge.node[0] == "S":
@@ -64,6 +65,10 @@ class PickDomain(ereduce.ReduceDomain):
             args = [it.ev(a, env) for a in args_e]
             _, sub, level, positive = args
             return Enum(OK, [Edge(("CUBE", level, positive, sub.node[0] if isinstance(sub, Edge) else "?"))])
+        if did.endswith("From::from") or did == "core::convert::From::from":
+            (a,) = [it.ev(x, env) for x in args_e]
+            if isinstance(a, bool):
+                return ("optbool", a)
         if did == self.fid and it.depth >= 1 and env.get("$fn") == self.fid:
             args = [it.ev(a, env) for a in args_e]
             edges = [a for a in args if isinstance(a, Edge)]
@@ -73,6 +78,12 @@ class PickDomain(ereduce.ReduceDomain):
             args = [it.ev(a, env) for a in args_e]
             return it.call_fn(did, args)
         return super().call(it, name, f, args_e, env, e)
+
+    def index_assign(self, it, c, i, v):
+        if isinstance(c, Opaque) and c.what == "cube":
+            self.writes.append((i, v))
+            return True
+        return None
 
     def call_value(self, it, fv, args):
         # the caller-supplied choice function
@@ -92,6 +103,12 @@ class PickDomain(ereduce.ReduceDomain):
                 return recv.children[i]
         if name == "level" and isinstance(recv, Enum) and recv.path in (NODE_INNER, NODE_TERMINAL):
             return recv.args[0].level if recv.path == NODE_INNER and isinstance(recv.args[0], SNode) else (2 ** 32 - 1)
+        if name == "level_to_var" and isinstance(recv, Opaque):
+            (lvl,) = it.args(e, env)
+            return ("varof", lvl)
+        if name == "var_to_level" and isinstance(recv, Opaque):
+            (v,) = it.args(e, env)
+            return ("levelof", v)
         if name == "is_terminal" and isinstance(recv, Enum):
             (tv,) = it.args(e, env)
             return recv.path == NODE_TERMINAL and recv.args[0] == tv
@@ -181,6 +198,49 @@ def run_kind(ctx, F, rule, kind, base, FALSE, TRUE, tag0):
                 fails += shape_errors(val, sit, want is t)
         ctx.ob(rule, rule + ":" + kind + ":pick_cube_dd_edge", not fails,
                "pick_cube_dd_edge::inner (%s): %s" % (F.where(fid), " || ".join(fails[:3])) if fails else "ok")
+    # ---- pick_cube_edge ------------------------------------------------------------------------------------------
+    pc = [fid for fid in F.hir if fid.startswith(base) and fid.endswith("::pick_cube_edge::inner")]
+    if ctx.anchor(rule, kind + " pick_cube_edge::inner", len(pc) == 1):
+        fid = pc[0]
+        fails = []
+        for t, e in ((FALSE, A), (A, FALSE), (A, Bn), (TRUE, Bn)):
+            N = inner("n", 3, (t, e))
+            holder = {}
+
+            def mk(oracle):
+                d = PickDomain(F, fid)
+                holder["d"] = d
+                return Interp(F, d, oracle)
+            for trace, (status, val) in enumerate_runs(
+                    mk, lambda it: it.call_fn(fid, [Opaque("manager"), N, Opaque("cube"), ("closure-param",)])):
+                n += 1
+                d = holder["d"]
+                sit = "pick_cube node(then=%r, else=%r)%s" % (t, e, " " + str(trace) if trace else "")
+                if status != "ok":
+                    fails.append("%s: %s %s" % (sit, status, val))
+                    continue
+                forced = is_false(t) or is_false(e)
+                if forced and d.choice_calls:
+                    fails.append("%s: the choice function is consulted although the branch is forced" % sit)
+                if not forced and d.choice_calls != 1:
+                    fails.append("%s: the choice function is consulted %d times (expected once)" % (sit, d.choice_calls))
+                took = d.rec[0][0] if d.rec and d.rec[0] else None
+                c = dict(trace).get("choice")
+                want = e if is_false(t) else t if is_false(e) else (t if c == 1 else e)
+                if took != want:
+                    fails.append("%s: descends into %r, expected %r" % (sit, took, want))
+                if len(d.writes) != 1:
+                    fails.append("%s: %d entries of the cube are written (expected one)" % (sit, len(d.writes)))
+                else:
+                    idx, valw = d.writes[0]
+                    if idx != ("varof", 3):
+                        fails.append("%s: the cube entry written is %r, expected the variable of the node's level "
+                                     "(level_to_var(level))" % (sit, idx))
+                    if valw != ("optbool", want is t or want == t):
+                        fails.append("%s: the cube records %r although the %s branch is taken" %
+                                     (sit, valw, "then" if (want is t or want == t) else "else"))
+        ctx.ob(rule, rule + ":" + kind + ":pick_cube_edge", not fails,
+               "pick_cube_edge::inner (%s): %s" % (F.where(fid), " || ".join(fails[:3])) if fails else "ok")
     # ---- pick_cube_dd_set_edge -----------------------------------------------------------------------------------
     if ctx.anchor(rule, kind + " pick_cube_dd_set_edge::inner", "set" in fids):
         fid = fids["set"]
